@@ -851,6 +851,9 @@ static htp_cfg_t *build_cfg(runctx *x) {
 
 /* C19: a configuration shared by several concurrently driven connections, and the scheduling point of hx_conc.c */
 __thread htp_cfg_t *hx_shared_cfg = NULL;
+/* the per-thread notion of "the run whose callbacks are executing", for hx conc's fiber mode (several runs take turns on one thread) */
+void *hx_cur_get(void) { return cur; }
+void hx_cur_set(void *p) { cur = p; }
 void (*hx_yield_hook)(void) = NULL;
 void (*hx_after_hook)(void) = NULL;
 #define YIELD() do { if (hx_yield_hook) hx_yield_hook(); } while (0)
